@@ -285,7 +285,7 @@ function simpleTarget (t) {
   if (t.type === 'Identifier') return true
   if (t.type === 'MemberExpression') {
     const o = t.object
-    if (o.type !== 'Identifier' && o.type !== 'ThisExpression') return false
+    if (o.type !== 'Identifier' && o.type !== 'ThisExpression' && o.type !== 'Super') return false
     if (!t.computed) return true
     return t.property.type === 'Literal' || t.property.type === 'Identifier'
   }
@@ -294,7 +294,7 @@ function simpleTarget (t) {
 // which part of a compound-assignment target would be evaluated twice by `T = T + E`
 function targetKind (t) {
   if (t.type !== 'MemberExpression') return 'other-target'
-  if (t.object.type !== 'Identifier' && t.object.type !== 'ThisExpression') return 'object-expression'
+  if (t.object.type !== 'Identifier' && t.object.type !== 'ThisExpression' && t.object.type !== 'Super') return 'object-expression'
   if (t.computed) return 'computed-key'
   return 'simple'
 }
